@@ -989,6 +989,20 @@ fn stream_match(thorough: bool, seed: u64, out: &mut dyn Write) {
             }
         }
     }
+    // the left operand rebuilt along each of the routes of the `route` op
+    for (i, a) in small.iter().enumerate() {
+        for (j, b) in small.iter().enumerate() {
+            if (i + j) % 3 != 0 {
+                continue;
+            }
+            for k in 0..8 {
+                let (ra, rb) = ((i + k) % 2, (j + k / 2) % 2);
+                let ea = MATCH_EXTS[(i + k) % MATCH_EXTS.len()];
+                let x = if ea.is_empty() { a.to_string() } else { format!("{}-{}", a, ea) };
+                writeln!(out, "matchr {} {} {} {} {}", hex(x.as_bytes()), hex(b.as_bytes()), ra, rb, k).unwrap();
+            }
+        }
+    }
     for a in ["en", "und", "fr", "EN", "abcde"] {
         for b in ["en", "und", "fr", "Und", "abcde"] {
             for (ra, rb) in [(0, 0), (0, 1), (1, 0), (1, 1)] {
@@ -1531,8 +1545,19 @@ fn stream_macros(thorough: bool, seed: u64, out: &mut dyn Write) {
     }
 }
 
+/// the macro-built values compiled into the harness (feature macros), one `macrel` request each
+fn stream_macvals(out: &mut dyn Write) {
+    #[cfg(feature = "macros")]
+    for (i, (lit, _, _)) in crate::ops::macro_values().iter().enumerate() {
+        writeln!(out, "macrel {} {}", i, hex(lit.as_bytes())).unwrap();
+    }
+    #[cfg(not(feature = "macros"))]
+    let _ = out;
+}
+
 pub fn generate(stream: &str, thorough: bool, seed: u64, out: &mut dyn Write) {
     match stream {
+        "macvals" => stream_macvals(out),
         "tokens" => stream_tokens(thorough, out),
         "wf" => stream_wf(thorough, seed, out),
         "near" => stream_near(thorough, seed, out),
